@@ -201,6 +201,37 @@ Theorem C07_change_on_builder_model :
 Proof. intros O orc e SE fuel addr extra s o b. apply ChangeInstance.add_change_all_ok. exact SE. Qed.
 Print Assumptions C07_change_on_builder_model.
 
+(* pack_nfts_for_change on C05's model with the concrete value-size answers: every bundle it returns is empty, or the
+   bundle of a value that was tested and FITS max_value_size (at the coin it was tested with; any other coin moves the
+   size by at most 8 bytes), or the re-normalisation v + {policy: {}} of such a value -- provided every single asset of
+   the change fits an output of its own (the asset that causes a split enters the fresh output untested) *)
+Theorem C07_pack_bundles_fit :
+  forall (O : Type) (orc : @Change.oracle O) (e : ChangeInstance.cenv),
+  ChangeInstance.sizes_exact e orc ->
+  forall (ce : Value.value) (ma : Value.multiasset) (s : Totals.state) (o : O) (l : list Value.multiasset),
+  Value.multiasset_of ce = Some ma -> ChangeInstance.all_single_fit e ma ->
+  Change.out_res (Change.pack_nfts_for_change orc ce s o) = Ok l ->
+  Forall (ChangeInstance.bundle_ok e) l /\
+  (forall v c, ChangeInstance.fits e v ->
+     value_size c (ChangeInstance.shape_ma (Value.multiasset_of v)) <= c_max_value_size (ChangeInstance.ce_cfg e) + 8).
+Proof.
+  intros O orc e SE ce ma s o l Ema SF R. split.
+  - destruct (ChangeInstance.pack_nfts_fits orc e SE (fun _ => True) ce ma Ema SF s o I I) as [_ Q].
+    rewrite R in Q. exact (proj2 Q).
+  - intros v c F. exact (ChangeInstance.fits_any_coin e v c F).
+Qed.
+Print Assumptions C07_pack_bundles_fit.
+
+Theorem C07_pack_single_asset_premise_needed :
+  exists e ce s l b,
+    Change.out_res (Change.pack_nfts_for_change (ChangeInstance.c07_oracle e) ce s tt) = Ok l /\ In b l /\
+    forall c, c_max_value_size (ChangeInstance.ce_cfg e) < value_size c (ChangeInstance.shape_ma (Some b)).
+Proof.
+  destruct ChangeInstance.pack_untested_witness as (l & b & H).
+  exists ChangeInstance.w_env, ChangeInstance.w_change, (Totals.new_state (Totals.mkConfig 0 0 false false)), l, b. exact H.
+Qed.
+Print Assumptions C07_pack_single_asset_premise_needed.
+
 (* instance: the fully concrete oracle (MinAda calculator, OutputSize value size, TxSize transaction size, linear fee)
    meets C05's premises (its answers are u64) and the exactness premise above, so C05's conservation theorem and the
    limits hold together on it *)
